@@ -33,7 +33,9 @@
 #include <osmium/thread/pool.hpp>
 
 #if defined(__SANITIZE_ADDRESS__)
-# include <sanitizer/allocator_interface.h>
+// (no sanitizer headers installed here: declare the two interface functions of libasan ourselves)
+extern "C" int __sanitizer_install_malloc_and_free_hooks(void (*malloc_hook)(const volatile void*, size_t), void (*free_hook)(const volatile void*));
+extern "C" size_t __sanitizer_get_allocated_size(const volatile void* p);
 # define HAVE_ASAN_HOOKS 1
 #endif
 
@@ -69,7 +71,7 @@ static void hook_malloc(const volatile void* p, size_t n) {
 }
 static void hook_free(const volatile void* p) {
     if (p) {
-        g_live.fetch_sub(static_cast<long long>(__sanitizer_get_allocated_size(const_cast<const void*>(p))));
+        g_live.fetch_sub(static_cast<long long>(__sanitizer_get_allocated_size(p)));
     }
 }
 #endif
